@@ -63,6 +63,7 @@ class Arbiter:
         self.reexec_pid = 0
         self.master_pid = 0
         self.master_name = "Master"
+        self._stopping = False
 
         cwd = util.getcwd()
 
@@ -378,6 +379,11 @@ class Arbiter:
         :attr graceful: boolean, If True (the default) workers will be
         killed gracefully  (ie. trying to wait for the current connection)
         """
+        # From here on the arbiter is going down: a worker that fails to
+        # boot must no longer raise HaltServer from the SIGCHLD handler.
+        # The exception would escape from halt() (or from the signal
+        # handler that called us) and replace the exit status in progress.
+        self._stopping = True
         unlink = (
             self.reexec_pid == self.master_pid == 0
             and not self.systemd
@@ -531,10 +537,10 @@ class Arbiter:
                     exitcode = status >> 8
                     if exitcode != 0:
                         self.log.error('Worker (pid:%s) exited with code %s', wpid, exitcode)
-                    if exitcode == self.WORKER_BOOT_ERROR:
+                    if exitcode == self.WORKER_BOOT_ERROR and not self._stopping:
                         reason = "Worker failed to boot."
                         raise HaltServer(reason, self.WORKER_BOOT_ERROR)
-                    if exitcode == self.APP_LOAD_ERROR:
+                    if exitcode == self.APP_LOAD_ERROR and not self._stopping:
                         reason = "App failed to load."
                         raise HaltServer(reason, self.APP_LOAD_ERROR)
 
